@@ -1101,7 +1101,10 @@ func (x *Exec) specCall(env *SpecEnv, n *ECall) TV {
 			return TV{V: &SpecVal{Kind: "seq", T: t}}
 		case *Term:
 			if nb := byteArrayLen(a.T); nb > 0 {
-				return TV{V: &SpecVal{Kind: "seq", T: x.D.Fun(fmt.Sprintf("seqofarr%d", nb), SSeq, v)}}
+				sq := x.D.Fun(fmt.Sprintf("seqofarr%d", nb), SSeq, v)
+				st.Assume(Eq(x.D.Fun(fmt.Sprintf("arrofseq%d", nb), v.Sort, sq), v))
+				st.Assume(Eq(x.seqLen(sq), BVConstU(uint64(nb), 64)))
+				return TV{V: &SpecVal{Kind: "seq", T: sq}}
 			}
 			if isString(a.T) {
 				return TV{V: &SpecVal{Kind: "seq", T: x.D.Fun("seq_of_str", SSeq, v)}}
@@ -1111,9 +1114,13 @@ func (x *Exec) specCall(env *SpecEnv, n *ECall) TV {
 	case "cat":
 		r := x.specSeq(arg(0))
 		for i := 1; i < len(n.Args); i++ {
-			r = x.D.Fun("seqcat", SSeq, r, x.specSeq(arg(i)))
+			r = x.seqCat(st, r, x.specSeq(arg(i)))
 		}
 		return TV{V: &SpecVal{Kind: "seq", T: r}}
+	case "emptyseq":
+		e := x.D.Fun("seqempty", SSeq)
+		st.Assume(Eq(x.seqLen(e), BVConstU(0, 64)))
+		return TV{V: &SpecVal{Kind: "seq", T: e}}
 	case "byteseq": // single byte sequence
 		a := arg(0)
 		var b *Term
@@ -1144,6 +1151,12 @@ func (x *Exec) specCall(env *SpecEnv, n *ECall) TV {
 	case "ite":
 		c := x.specBool(env, n.Args[0])
 		a, b := arg(1), arg(2)
+		if sa, ok := a.V.(*SpecVal); ok && sa.Kind == "seq" {
+			return TV{V: &SpecVal{Kind: "seq", T: Ite(c, sa.T, x.specSeq(b))}}
+		}
+		if ta, ok := a.V.(*Term); ok && ta.Sort.K == KBool {
+			return mkSpecBool(Ite(c, ta, x.specBool(env, n.Args[2])))
+		}
 		na, nb := x.unifyNum(a, b, "ite")
 		na.t = Ite(c, na.t, nb.t)
 		return numTV(na)
